@@ -7,7 +7,7 @@ package main
 //   SRC = x<hex of the bytes> | (c1 c2 …) code points. `file` = file name given to the entry module
 //   (default "main"). Modules are served by an in-memory host (`ResolveCodeModule`).
 // Output line: fields separated by " | ":
-//   <class> psoft=<n> phard=<0|1> syn=<n> diag=<hints>/<infos>/<warnings>/<errors> items=<n> bad=<n>
+//   <class> psoft=<n> phard=<0|1> syn=<n> diag=<hints>/<infos>/<warnings>/<errors> items=<n> bad=<n> mods=<analysed modules>
 //   then up to maxItems items (every item with a problem is printed first):
 //   <P|A><S|H|D> k=<kind/level> sp=<sl.sc.si-el.ec.ei> f=x<file> pos=<in|whole|bad:reason> ord=<0|1>
 //        disp=<ok|panic:x..> edisp=<ok|panic:x..> ddisp=<ok|panic:x..> m=x<message prefix>
@@ -289,6 +289,7 @@ func totalLine(line string) string {
 	// 2. Analyze (parses again, resolves imports through the host)
 	nsyn := 0
 	lv := [4]int{}
+	modNames := []string{}
 	if class == "" {
 		func() {
 			defer func() {
@@ -299,8 +300,12 @@ func totalLine(line string) string {
 					}
 				}
 			}()
-			_, diags, syn := hms.Analyze(hms.InputProgram{ProgramText: text, Filename: c.file},
+			analysed, diags, syn := hms.Analyze(hms.InputProgram{ProgramText: text, Filename: c.file},
 				hms.TestingAnalyzerScopeAdditions(), totalHost{c.mods}, !c.nomain)
+			for n := range analysed {
+				modNames = append(modNames, n)
+			}
+			sort.Strings(modNames)
 			nsyn = len(syn)
 			for _, e := range syn {
 				items = append(items, c.judge("AS", int(e.Kind), e.Span, e.Message, "e"))
@@ -329,8 +334,8 @@ func totalLine(line string) string {
 			nbad++
 		}
 	}
-	parts := []string{fmt.Sprintf("%s psoft=%d phard=%d syn=%d diag=%d/%d/%d/%d items=%d bad=%d", class, psoft, phard, nsyn,
-		lv[0], lv[1], lv[2], lv[3], len(items), nbad)}
+	parts := []string{fmt.Sprintf("%s psoft=%d phard=%d syn=%d diag=%d/%d/%d/%d items=%d bad=%d mods=%s", class, psoft, phard, nsyn,
+		lv[0], lv[1], lv[2], lv[3], len(items), nbad, strings.Join(modNames, ","))}
 	shown := 0
 	for _, it := range items {
 		if it.bad && shown < maxItems {
